@@ -24,7 +24,7 @@ def catalogue():
         for mid, meta in sorted(cat.items()):
             patch = os.path.join(HERE, "mutants", mid + ".patch")
             if os.path.exists(patch):
-                items.append({"id": mid, "patch": patch, "kind": meta["kind"], "properties": meta.get("properties", []), "edit": meta.get("edit", "")})
+                items.append({"id": mid, "patch": patch, "kind": meta["kind"], "properties": meta.get("properties", []), "edit": meta.get("edit", ""), "base": meta.get("base")})
     for d in sorted(glob.glob(os.path.join(HERE, "seeded", "*"))):
         mp = os.path.join(d, "meta.json")
         patch = os.path.join(d, "patch.diff")
@@ -42,14 +42,45 @@ def run_one(args):
     try:
         subprocess.run(["rsync", "-a", "--exclude", "target", "--exclude", ".git", "--exclude", "benchmarks", repo.rstrip("/") + "/", td + "/r/"], check=True)
         r = subprocess.run(["patch", "-p1", "-s", "--no-backup-if-mismatch", "-i", item["patch"]], cwd=td + "/r", capture_output=True, text=True)
-        if r.returncode != 0:
-            return item["id"], "skipped-does-not-apply", []
+        from harness import Program, Inconclusive
+        from analysis import analyse
+        base_keys = set()
+        base_tag = ""
+        if r.returncode != 0 or item.get("base"):
+            # the patch was written against an earlier commit of the repository (before a later `fix:` commit touched the
+            # same lines): evaluate it against that commit, and count only what it adds to that commit's own report
+            ok = False
+            revs = subprocess.run(["git", "-C", repo, "rev-list", "--max-count=8", "HEAD"], capture_output=True, text=True).stdout.split()
+            if item.get("base"):
+                revs = [None, item["base"]]
+            for rev in revs[1:]:
+                shutil.rmtree(td + "/r", ignore_errors=True)
+                os.makedirs(td + "/r")
+                ar = subprocess.run("git -C %s archive %s | tar x -C %s" % (repo, rev, td + "/r"), shell=True, capture_output=True)
+                if ar.returncode != 0:
+                    continue
+                shutil.rmtree(td + "/r/benchmarks", ignore_errors=True)
+                shutil.rmtree(td + "/b", ignore_errors=True)
+                shutil.copytree(td + "/r", td + "/b")
+                r2 = subprocess.run(["patch", "-p1", "-s", "--no-backup-if-mismatch", "-i", item["patch"]], cwd=td + "/r", capture_output=True, text=True)
+                if r2.returncode == 0:
+                    ok = True
+                    base_tag = "@" + rev[:7]
+                    bf = td + "/base.json"
+                    rb = subprocess.run([os.path.join(HERE, "factgen.sh"), td + "/b", bf, "dev"], capture_output=True, text=True)
+                    if rb.returncode == 0:
+                        try:
+                            bres = analyse(Program(bf, "dev"))
+                            base_keys = set("%s:%s" % (v["rule"], v["key"]) for v in bres.violations)
+                        except (Inconclusive, KeyError):
+                            pass
+                    break
+            if not ok:
+                return item["id"], "skipped-does-not-apply", []
         facts = td + "/facts.json"
         r = subprocess.run([os.path.join(HERE, "factgen.sh"), td + "/r", facts, "dev"], capture_output=True, text=True)
         if r.returncode != 0:
             return item["id"], "skipped-does-not-build", []
-        from harness import Program, Inconclusive
-        from analysis import analyse
         try:
             res = analyse(Program(facts, "dev"))
         except (Inconclusive, KeyError) as e:
@@ -59,10 +90,10 @@ def run_one(args):
             k = "%s|%s" % (o[0], o[1].split(":")[0])
             counts[k] = counts.get(k, 0) + 1
         COUNTS[item["id"]] = counts
-        keys = sorted(set("%s:%s" % (v["rule"], v["key"]) for v in res.violations))
+        keys = sorted(set("%s:%s" % (v["rule"], v["key"]) for v in res.violations) - base_keys)
         if item.get("want_counts"):
-            return item["id"], "analysed", keys, counts
-        return item["id"], "analysed", keys
+            return item["id"], "analysed" + base_tag, keys, counts
+        return item["id"], "analysed" + base_tag, keys
     finally:
         shutil.rmtree(td, ignore_errors=True)
 
@@ -79,7 +110,7 @@ def selftest(pid, repo, relevant_keys, known_keys, baseline_keys):
     for (it, _), r in zip(jobs, results):
         iid, status, keys = r[0], r[1], r[2]
         counts = r[3] if len(r) > 3 else None
-        if status != "analysed":
+        if not status.startswith("analysed"):
             out["skipped"] += 1
             out["details"].append({"id": iid, "status": status})
             continue
